@@ -34,7 +34,7 @@ type c19obs struct {
 // C19 — blocklisted addresses and passive mode are honoured on every path.
 func c19(c *evid.Ctx) {
 	r := c.R.Fork("c19")
-	runs := c.Scale(120, 6000)
+	runs := c.Scale(120, 4000)
 	for run := 0; run < runs && c.NumViolations() < 20; run++ {
 		c19run(c, r, run)
 	}
